@@ -197,10 +197,8 @@ def arg_text(a):
 # ---- classes --------------------------------------------------------------------------------
 class Gen:
     """One generator instance per case.  `stream` selects the input class:
-    main    : every public/protected section that is not the last of its kind holds no component/extends
-              (where the current listener labels wrongly: finding C04-F2), no declarator with own and clause dims
-    multisec: any number of public/protected sections with components (C04-F2 inputs)
-    bothdims: some declarator has its own and clause-level dimensions (C04-F3 inputs)
+    main    : any number / order of public, protected, equation and algorithm sections; declarators with own
+              and/or clause-level dimensions (the inputs of the former findings C04-F2 / C04-F3 included)
     dup     : one class declares a component twice
     redecl  : extends clauses redeclare components (component_clause1 inside an extends modification)
     quirk   : duplicate nested class names / clashing imports (only model vs code, no direct expectation)
@@ -246,11 +244,8 @@ class Gen:
                 e["flags"].append(f)
         if rng.random() < 0.25:
             e["cdims"] = gen_dims(rng)
-        both = self.stream == "bothdims"
         for n in names:
-            e["decls"].append(self.gen_decl(n, allow_dims=e["cdims"] is None or both))
-        if both and e["cdims"] is None and rng.random() < 0.5:
-            e["cdims"] = gen_dims(rng)
+            e["decls"].append(self.gen_decl(n, allow_dims=e["cdims"] is None or rng.random() < 0.4))
         return e
 
     def gen_ext(self, vis_ok=True):
@@ -358,16 +353,10 @@ class Gen:
             r = rng.random()
             kinds.append("elems" if r < 0.5 else "eqs" if r < 0.8 else "algs")
         viss = [rng.choice(["public", "protected"]) for k in kinds]
-        # which element sections are the last of their visibility
-        last = {}
         for i, k in enumerate(kinds):
             if k == "elems":
-                last[viss[i]] = i
-        for i, k in enumerate(kinds):
-            if k == "elems":
-                plain = self.stream not in ("multisec",) and last[viss[i]] != i
                 c["sections"].append({"t": "elems", "vis": viss[i],
-                                      "elems": self.gen_elems(st, depth, int(rng.randint(0, 3) * scale + 0.5), plain)})
+                                      "elems": self.gen_elems(st, depth, int(rng.randint(0, 3) * scale + 0.5))})
             elif k == "eqs":
                 c["sections"].append({"t": "eqs", "initial": rng.random() < 0.35,
                                       "eqs": [gen_eq(rng) for _ in range(rng.randint(0, 3))]})
